@@ -6,6 +6,7 @@ import faulthandler
 import hashlib
 import importlib
 import json
+import logging
 import multiprocessing
 import os
 import sys
@@ -50,6 +51,7 @@ _W = {}
 
 def _worker_init(prop_id, quiet):
     warnings.simplefilter("ignore")
+    logging.disable(logging.CRITICAL)
     os.environ.setdefault("MPLBACKEND", "Agg")
     if quiet:
         sys.stdout = open(os.devnull, "w")
@@ -95,8 +97,12 @@ def _worker_task(args):
                 continue
             shrunk = None
             if res.violation is not None:
+                seen = _W.setdefault("minimised", {})
+                n_seen = seen.get(res.violation["signature"], 0)
+                seen[res.violation["signature"]] = n_seen + 1
                 try:
-                    m = minimise(prop, res, budget_s=shrink_budget)
+                    # minimise the first few occurrences of a signature per worker; later ones are only replayed
+                    m = minimise(prop, res, budget_s=shrink_budget if n_seen < 2 else 0.0)
                 except Exception as e:
                     out.append({"index": i, "seed": seed, "harness_error": "".join(traceback.format_exception(e))})
                     continue
@@ -312,6 +318,7 @@ def replay_file(path):
         rp = json.load(f)
     prop = load_prop(rp["property"])
     warnings.simplefilter("ignore")
+    logging.disable(logging.CRITICAL)
     r = replay(prop, rp["universe"], rp["config"], rp["trace"])
     same = r.violation is not None and r.violation["signature"] == rp["signature"]
     return rp, r, same
